@@ -101,4 +101,27 @@ theorem uniformPhsRun_last (root : Nat → α → α) (hist : List (Phs α × Li
   rw [uniformPhsRun_append]
   simp [uniformPhsRun]
 
+/-! ### the proposed repair of F130 -/
+
+variable {ρ : Type}
+
+/-- with the repair a bound that no PHS can improve on is answered `false` at once, consuming no draw and not moving
+the counter — arithmetic-free, no rounding involved -/
+theorem sampleInnerFixed_cannotImprove (s : Sampler α) (inB : List α × ρ → Bool) (c : α) (ds : List (Draw α ρ))
+    (cur : List α × ρ) (it : Nat) (h : (s.update c).cannotImprove c = true) :
+    (s.sampleInnerFixed inB true c ds cur it).2.found = false ∧
+    (s.sampleInnerFixed inB true c ds cur it).2.rest = ds ∧ (s.sampleInnerFixed inB true c ds cur it).2.iters = it := by
+  simp [Sampler.sampleInnerFixed, h]
+
+/-- otherwise the repaired function IS the coded one (every soundness theorem carries over) -/
+theorem sampleInnerFixed_eq (s : Sampler α) (inB : List α × ρ → Bool) (fin : Bool) (c : α) (ds : List (Draw α ρ))
+    (cur : List α × ρ) (it : Nat) (h : (fin && (s.update c).cannotImprove c) = false) :
+    s.sampleInnerFixed inB fin c ds cur it = s.sampleInner inB fin c ds cur it := by
+  simp [Sampler.sampleInnerFixed, h]
+
+/-- a single PHS whose focal distance is not below the bound is exactly the `cannotImprove` situation -/
+theorem cannotImprove_single (s' : Sampler α) (p : Phs α) (c : α) (hs : s'.phss = [p]) (hc : ¬ p.cmin < c) :
+    s'.cannotImprove c = true := by
+  simp [Sampler.cannotImprove, hs, hc]
+
 end OmplModel.Phs.PhsState
